@@ -89,7 +89,25 @@ func TileShape(r *core.Rng, target int) ([]byte, string) {
 		}
 		tiny := [][]byte{[]byte("II*\x00\x08\x00\x00\x00"), []byte("MM\x00*\x00\x00\x00\x08"), []byte("II*\x00\x08\x00\x00\x00\x01\x00\x0f\x01\x02\x00\x09\x00\x00\x00\x00\x00\x00\x00"),
 			[]byte("MM\x00*"), []byte("II*\x00\xff\xff\xff\xff"), nil}
-		switch r.Intn(6) {
+		switch r.Intn(7) {
+		case 6:
+			// an Exif block whose root directory names one long text value many times over (writers
+			// store equal strings once; every entry of the tag may point at it)
+			n, vl := r.Pick(2, 20, 80, 84, 128), r.Pick(200, 1500, 4000, 4096)
+			t := []byte("II*\x00\x08\x00\x00\x00")
+			t = append(t, byte(n), byte(n>>8))
+			tg := r.Pick(0x013b, 0x8298, 0x0131, 0x010e, 0x010f, 0x0110)
+			val := 8 + 2 + 12*n + 4
+			for i := 0; i < n; i++ {
+				off := val
+				if r.Chance(1, 10) {
+					off = val + i%3
+				}
+				t = append(t, byte(tg), byte(tg>>8), 2, 0, byte(vl), byte(vl>>8), 0, 0, byte(off), byte(off>>8), byte(off>>16), 0)
+			}
+			t = append(t, 0, 0, 0, 0)
+			t = append(t, bytes.Repeat([]byte("v"), vl+4)...)
+			unit = seg(0xE1, append([]byte(ExifPrefix), t...))
 		case 0:
 			unit = seg(0xE1, append([]byte(ExifPrefix), tiny[r.Intn(len(tiny))]...))
 		case 1:
@@ -161,19 +179,20 @@ func TileShape(r *core.Rng, target int) ([]byte, string) {
 			out = append(out, make([]byte, 64)...)
 			return out, fmt.Sprintf("tiles tiff entries entry=%x n=%d len=%d", e, n, len(out))
 		}
-		if r.Chance(1, 3) {
+		if r.Chance(1, 2) {
 			// fan-out: K pointer entries in the root directory lead to K sub-directories laid out
 			// back to back; sub-directory k holds min(k, cap) copies of one string tag (as many as
 			// the reader's pending table has free by then) whose long values start right behind it,
 			// one byte apart. Every value is attempted.
 			K, capN := r.Pick(8, 84, 84, 85, 128), r.Pick(16, 84, 128)
 			ptr := r.Pick(0x8769, 0x8769, 0x8769, 0x8825)
-			tg := r.Pick(0xa434, 0xa433, 0xa431, 0x010e, 0x0131, 0x013b, 0x8298)
+			tg := r.Pick(0xa434, 0xa433, 0xa431, 0xa435, 0xa430, 0xa434, 0x9003, 0x9290)
 			if ptr == 0x8825 {
 				tg = r.Pick(0x001d, 0x0002, 0x001b)
 			}
-			ty := r.Pick(2, 2, 2, 7)
-			cnt := r.Pick(1025, 1537, 4096, 4097, 5000, 60000)
+			ty := r.Pick(2, 2, 2, 2, 7)
+			cnt := r.Pick(1025, 1537, 4000, 4096, 4097, 5000, 60000)
+			step := r.Pick(1, 0) // 0: every entry of a directory names the same value
 			nOf := func(k int) int {
 				if k < capN {
 					return k
@@ -195,13 +214,13 @@ func TileShape(r *core.Rng, target int) ([]byte, string) {
 				out = p16(out, n)
 				v := E[k] + 2 + 12*n + 4
 				for j := 0; j < n; j++ {
-					out = p32(p32(p16(p16(out, tg), ty), cnt), v+j)
+					out = p32(p32(p16(p16(out, tg), ty), cnt), v+j*step)
 				}
 				out = p32(out, 0)
 				out = append(out, bytes.Repeat([]byte("A"), n+2)...)
 			}
 			out = append(out, bytes.Repeat([]byte("A"), r.Pick(64, 2000, 8192))...)
-			return out, fmt.Sprintf("tiles tiff fanout K=%d cap=%d ptr=%#x tag=%#x type=%d count=%d len=%d", K, capN, ptr, tg, ty, cnt, len(out))
+			return out, fmt.Sprintf("tiles tiff fanout K=%d cap=%d ptr=%#x tag=%#x type=%d count=%d step=%d len=%d", K, capN, ptr, tg, ty, cnt, step, len(out))
 		}
 		// chain: each directory holds one entry and points at the next
 		out := append([]byte(nil), h...)
